@@ -107,6 +107,20 @@ fn eval_lib(_ctx: &Ctx, case: &LibCase) -> Verdict {
             spec.shape
         );
     }
+    // the frequency type-state: the marginal of the normalised spectrum is the naive sum over the
+    // normalised values
+    if spec.values.iter().all(|v| v.is_finite() && *v >= 0.0) && spec.sum() > 0.0 {
+        let scs = spec.to_scs();
+        let axes: Vec<Axis> = remove.iter().map(|&a| Axis(a)).collect();
+        let (normalised, marginal) = guard(move || {
+            let sfs = scs.into_normalized();
+            (Spec::from_scs(&sfs), sfs.marginalize(&axes).map(|m| Spec::from_scs(&m)).map_err(|e| e.to_string()))
+        })
+        .map_err(|p| Failure::new(format!("marginalize({remove:?}) on the normalised spectrum of shape {:?}: {p}", spec.shape)))?;
+        let marginal = marginal.map_err(|e| Failure::new(format!("marginalize({remove:?}) on the normalised spectrum failed: {e}")))?;
+        let want_n = normalised.marginalize(remove);
+        ensure!(same(&marginal, &want_n, false, 1.0), "marginalize({remove:?}) of the normalised spectrum (Sfs) of {:?} = {:?}, the naive sum over the normalised values gives {:?}", spec, marginal.values, want_n.values);
+    }
     // one at a time, the harness doing the renumbering
     {
         let mut cur = spec.clone();
